@@ -82,3 +82,46 @@ def ref_frame_select(rows, index, columns, rk, ck):
     if not cmulti:
         return ['S', [index[i] for i in rp], [rows[i][cp[0]] for i in rp], columns[cp[0]]]
     return ['F', [index[i] for i in rp], [columns[j] for j in cp], [[rows[i][j] for j in cp] for i in rp]]
+
+
+# ---------------------------------------------------------------- missing-value fills (C14, C03)
+
+M = 'NaN'   # missing marker in reference space
+
+
+def ref_directional(line, forward, limit):
+    """Fill each run of missing cells from the nearest preceding (forward) / following (backward)
+    non-missing value, at most `limit` cells per run (0 = no limit)."""
+    vals = list(line) if forward else list(line)[::-1]
+    out = list(vals)
+    last = M
+    run = 0
+    for i, v in enumerate(vals):
+        if v == M:
+            run += 1
+            if last != M and (limit == 0 or run <= limit):
+                out[i] = last
+        else:
+            last = v
+            run = 0
+    return out if forward else out[::-1]
+
+
+def ref_sided(line, leading, value):
+    vals = list(line) if leading else list(line)[::-1]
+    out = list(vals)
+    for i, v in enumerate(vals):
+        if v == M:
+            out[i] = value
+        else:
+            break
+    return out if leading else out[::-1]
+
+
+def by_axis(ref_rows, axis, fn):
+    """Apply fn to every column (axis 0) or row (axis 1) of the reference."""
+    nrows, ncols = len(ref_rows), len(ref_rows[0])
+    if axis == 1:
+        return [fn(list(r)) for r in ref_rows]
+    cols = [fn([ref_rows[r][c] for r in range(nrows)]) for c in range(ncols)]
+    return [[cols[c][r] for c in range(ncols)] for r in range(nrows)]
